@@ -719,6 +719,19 @@ def _only_naming(sb, sa, tn_before):
 def mech_frame(op, kind, sections, info, changed, W):
     if op == 'mandatory' and W.kind.get(info.get('parent')) == 'array' and changed == info.get('parent'):
         return 'mandatory_array_mutates_original'
+    if sorted(s.split(':')[0] for s in sections) == ['schema'] and W.kind.get(changed) == 'complex':
+        # child_attrs / child_attrs_all on a subclass make spyne customise the BASE class as well, without giving the copy a
+        # type name of its own: two different classes then answer to the base's type name, and which of them the schema
+        # generator writes under that name depends on what else exists
+        k = W.pool[changed]
+        for m in W.pool.values():
+            try:
+                e = getattr(m, '__extends__', None)
+                if e is not None and e is not k and getattr(e, '__orig__', None) is not None and e.get_type_name() == k.get_type_name() \
+                        and (e.__orig__ is k or getattr(e.__orig__, '__orig__', None) is k or issubclass(e, k)):
+                    return 'anonymous_customized_base_shares_type_name'
+            except Exception:
+                continue
     return 'frame:%s:%s' % (op, ','.join(sorted(s.split(':')[0] for s in sections)))
 
 
